@@ -6,9 +6,9 @@ rationals `n/d`, `-` = unavailable.
   ship none | ship <4 base> <pen>            pen = `-` (stackable) or `p0,p1,...` (PENALTY_BASE**(k*k) as ratios)
   shipmod <t,t,..> <4 base> <pen>            modifiers of these ship resonances changed
   rahp <4>|- | defp <4> | start <4 base> <shift> <dur> <shiftCached 0|1> <durCached 0|1> | stop <i> | shift <i> <v> | dur <i> <v> | base <i> <4>
-  readrah   -> `rah <outcome> <looped> <ticks> <frag> <stale>;<4>;<4>...`   (outcome `stored` when nothing was run)
+  readrah   -> `rah <outcome> <looped> <ticks> <frag>;<4>;<4>...`   (outcome `stored` when nothing was run)
   readship <t> -> `ship <outcome> <looped> <ticks> <frag> <value|none>`
-  dump      -> `state res=<0|1> stale=<0|1> n=<k> shipC=<t,..>`
+  dump      -> `state res=<0|1> n=<k> shipC=<t,..>`
 Anything else -> `bad-op`. -/
 open Eos Eos.Rah
 
@@ -102,7 +102,7 @@ def stepRah (s : DState) (line : String) : DState × List String :=
     match i.toNat?, vec? [a, b, c, d] with | some i, some v => ok (applyOp s (.setBase i v)) | _, _ => bad
   | ["readrah"] =>
     let s' := applyOp s .readRah
-    (s', [";".intercalate (s!"rah {fillInfo s} {b01 s'.w.stale}" :: s'.w.exposed.map showVec)])
+    (s', [";".intercalate (s!"rah {fillInfo s}" :: s'.w.exposed.map showVec)])
   | ["readship", t] =>
     match dmgOf? t with
     | none => bad
@@ -115,7 +115,7 @@ def stepRah (s : DState) (line : String) : DState × List String :=
   | ["dump"] =>
     let w := s.w
     let cs := [Dmg.em, .therm, .kin, .expl].filter (· ∈ w.shipC)
-    (s, [s!"state res={b01 w.res.isSome} stale={b01 w.stale} n={w.rahs.length} shipC={",".intercalate (cs.map dmgName)}"])
+    (s, [s!"state res={b01 w.res.isSome} n={w.rahs.length} shipC={",".intercalate (cs.map dmgName)}"])
   | _ => bad
 
 def main : IO Unit := do lineLoop (← IO.getStdin) (⟨World.init, maxTicks⟩ : DState) stepRah
